@@ -44,7 +44,7 @@ func c18GenUnified(r *v.Rand, cidLen int) UnifiedHeader {
 // UnifiedHeader (id 20): ctx = [negotiated cid length].
 func c18UnifiedCodec(cidLen int) *v.Codec {
 	return &v.Codec{
-		Name: "unified_header", ID: 20, Ctx: []int{cidLen}, Small: cidLen == 0,
+		Name: "unified_header", ID: 20, Ctx: []int{cidLen}, Small: true, Tiny: cidLen == 0,
 		Corpus: [][]byte{
 			{60, 0, 7, 0, 16}, // C bit set: with cidLen 0 it is accepted and re-encoded without it
 		},
